@@ -2,7 +2,11 @@
 package rules
 
 import (
+	"encoding/json"
 	"fmt"
+	"os"
+	"path/filepath"
+	"strings"
 
 	"verif/checker/internal/an"
 )
@@ -19,6 +23,32 @@ type PropRules struct {
 	Floors map[string]int
 	// ExtraConfigs lists additional build configurations analysed in the thorough tier.
 	NoExtraConfigs bool
+}
+
+// Overlay, when set, replaces files of /repo in memory (self-test mutants).
+var Overlay map[string][]byte
+
+// LoadMutant reads a mutant description {file, old, new[, count]} and returns the overlay.
+func LoadMutant(repo, path string) (map[string][]byte, error) {
+	b, err := os.ReadFile(path)
+	if err != nil {
+		return nil, err
+	}
+	var m struct {
+		File, Old, New string
+	}
+	if err := json.Unmarshal(b, &m); err != nil {
+		return nil, err
+	}
+	fp := filepath.Join(repo, m.File)
+	src, err := os.ReadFile(fp)
+	if err != nil {
+		return nil, err
+	}
+	if n := strings.Count(string(src), m.Old); n != 1 {
+		return nil, fmt.Errorf("anchor text occurs %d times in %s (need exactly 1)", n, m.File)
+	}
+	return map[string][]byte{fp: []byte(strings.Replace(string(src), m.Old, m.New, 1))}, nil
 }
 
 // Registry maps property ids to their rules.
@@ -39,7 +69,7 @@ func Run(c *an.Ctx, r *PropRules, repo string) {
 	c.Explain = r.Explain
 	c.Undec = r.Undec
 	c.Trusted = append(append([]string{}, commonTrusted...), r.Trusted...)
-	cfgs := []an.Config{{Dir: repo}}
+	cfgs := []an.Config{{Dir: repo, Overlay: Overlay}}
 	if c.Tier == "thorough" && !r.NoExtraConfigs {
 		cfgs = append(cfgs, an.Config{Dir: repo, Tags: []string{"dev"}}, an.Config{Dir: repo, Tags: []string{"gofuzz"}}, an.Config{Dir: repo, GOARCH: "386"})
 	}
